@@ -43,7 +43,9 @@ impl Peer {
 		if self.string_ids { format!("\"{n}\"") } else { n }
 	}
 	fn sub_json(&self, s: i64) -> String {
-		if self.string_ids { format!("\"{s}\"") } else { s.to_string() }
+		// 101, 102: the digits of 1, 2 in the other JSON type (client_rig::sub_as_num)
+		let (digits, as_string) = if s >= 100 { (s - 100, !self.string_ids) } else { (s, self.string_ids) };
+		if as_string { format!("\"{digits}\"") } else { digits.to_string() }
 	}
 	/// concrete text of one (already numbered) abstract element
 	fn text(&self, m: &Value) -> String {
@@ -97,6 +99,12 @@ impl Peer {
 	}
 }
 
+/// a subscription id the peer talks about: 1 or 2, now and then their other-typed twins 101 / 102
+fn pick_sub(rng: &mut StdRng) -> i64 {
+	let s = rng.random_range(1..3);
+	if rng.random_range(0..7) == 0 { s + 100 } else { s }
+}
+
 fn gen_single(rng: &mut StdRng, seen: &[i64], max_seen: i64, menu: &[&str]) -> Option<Value> {
 	let k = menu[rng.random_range(0..menu.len())];
 	Some(match k {
@@ -117,8 +125,8 @@ fn gen_single(rng: &mut StdRng, seen: &[i64], max_seen: i64, menu: &[&str]) -> O
 			};
 			json!({"t": "resp", "id": id, "ok": ok, "sub": sub})
 		}
-		"notif" => json!({"t": "notif", "sub": rng.random_range(1..3)}),
-		"close" => json!({"t": "close", "sub": rng.random_range(1..3)}),
+		"notif" => json!({"t": "notif", "sub": pick_sub(rng)}),
+		"close" => json!({"t": "close", "sub": pick_sub(rng)}),
 		"mnotif" => json!({"t": "mnotif"}),
 		_ => json!({"t": "garbage"}),
 	})
@@ -130,7 +138,7 @@ fn gen_answer(rng: &mut StdRng, id: i64, is_sub: bool) -> Value {
 		match rng.random_range(0..8) {
 			0 => json!({"t": "resp", "id": id, "ok": false, "sub": -1}),
 			1 => json!({"t": "resp", "id": id, "ok": true, "sub": -1}),
-			_ => json!({"t": "resp", "id": id, "ok": true, "sub": rng.random_range(1..3)}),
+			_ => json!({"t": "resp", "id": id, "ok": true, "sub": pick_sub(rng)}),
 		}
 	} else {
 		json!({"t": "resp", "id": id, "ok": rng.random_range(0..6) != 0, "sub": -1})
